@@ -524,11 +524,6 @@ Qed.
 
 (* ================================================================ the heap of header arrays *)
 
-(* h' differs from h at most in the contents (not the length) of array a *)
-Definition frame (h h' : heap) (a : nat) : Prop :=
-  length h' = length h /\ (forall b, b <> a -> harray h' b = harray h b) /\
-  length (harray h' a) = length (harray h a).
-
 Lemma frame_refl h a : frame h h a.
 Proof. unfold frame. auto. Qed.
 
@@ -904,3 +899,403 @@ Proof.
   - unfold vv_wf, hs_ok. cbn. repeat split; try lia.
     repeat constructor; unfold wf_view; cbn; lia.
 Qed.
+
+(* ================================================================ several objects in one heap *)
+
+Lemma wabs_nth w i : nth_error (wabs w) i = option_map (vv_bytes (wheap w)) (nth_error (wobjs w) i).
+Proof. unfold wabs. apply nth_error_map. Qed.
+
+(* replacing object o by vv' (same header array, heap changed only in that array) *)
+Lemma world_update w o vv h' vv' :
+  wf_world w -> nth_error (wobjs w) o = Some vv ->
+  vv_wf h' vv' -> harr (views vv') = harr (views vv) -> frame (wheap w) h' (harr (views vv)) ->
+  wf_world (mkW h' (setobj (wobjs w) o vv')) /\
+  wabs (mkW h' (setobj (wobjs w) o vv')) = upd o (vv_bytes h' vv') (wabs w).
+Proof.
+  intros (W1 & W2) Ho Hwf Ha Hfr.
+  assert (o < length (wobjs w))%nat as Hlt by (apply nth_error_Some; congruence).
+  assert (forall i x, i <> o -> nth_error (wobjs w) i = Some x ->
+                      vv_wf h' x /\ hviews h' (views x) = hviews (wheap w) (views x)) as Hother.
+  { intros i x Hi Hx. eapply vv_transfer_frame; [exact Hfr| |exact (W1 i x Hx)].
+    exact (W2 i o x vv Hx Ho Hi). }
+  split; [split|].
+  - intros i x. cbn [wobjs wheap]. unfold setobj. rewrite nth_error_upd.
+    destruct (Nat.eqb o i) eqn:E.
+    + apply Nat.eqb_eq in E. subst i. replace (o <? length (wobjs w))%nat with true by (symmetry; apply Nat.ltb_lt; exact Hlt).
+      intros H; inversion H; subst. exact Hwf.
+    + apply Nat.eqb_neq in E. intros Hx. apply (Hother i x); [congruence|exact Hx].
+  - intros i j vi vj. cbn [wobjs]. unfold setobj. rewrite !nth_error_upd.
+    replace (o <? length (wobjs w))%nat with true by (symmetry; apply Nat.ltb_lt; exact Hlt).
+    destruct (Nat.eqb_spec o i) as [Ei|Ei]; destruct (Nat.eqb_spec o j) as [Ej|Ej]; intros Hi Hj Hij.
+    + congruence.
+    + inversion Hi; subst vi. rewrite Ha. apply (W2 o j vv vj Ho Hj). congruence.
+    + inversion Hj; subst vj. rewrite Ha. apply (W2 i o vi vv Hi Ho). congruence.
+    + apply (W2 i j vi vj Hi Hj Hij).
+  - apply nth_error_ext. intros i. rewrite wabs_nth. cbn [wobjs wheap]. unfold setobj.
+    rewrite !nth_error_upd. unfold wabs at 1. rewrite map_length.
+    destruct (Nat.eqb o i) eqn:E.
+    + replace (o <? length (wobjs w))%nat with true by (symmetry; apply Nat.ltb_lt; exact Hlt).
+      reflexivity.
+    + apply Nat.eqb_neq in E. rewrite wabs_nth.
+      destruct (nth_error (wobjs w) i) as [x|] eqn:Ex; [|reflexivity]. cbn [option_map].
+      f_equal. destruct (Hother i x ltac:(congruence) Ex) as (_ & Hv).
+      unfold vv_bytes. now rewrite Hv.
+Qed.
+
+Lemma wstep_refines w op :
+  wf_world w ->
+  exists w', wstep w op = Ok w' /\ wf_world w' /\ wabs w' = bstep (wabs w) (bop_of w op).
+Proof.
+  intros Hw. pose proof Hw as (W1 & W2).
+  destruct op as [o n|o n|o|o k]; cbn [wstep bop_of bstep]; rewrite wabs_nth;
+    destruct (nth_error (wobjs w) (Z.to_nat o)) as [vv|] eqn:Eo; cbn [option_map];
+    try (exists w; split; [reflexivity|split; [exact Hw|reflexivity]]).
+  - destruct (vv_trimFront_spec (wheap w) vv n (W1 _ _ Eo)) as (h' & vv' & E & Hwf & Hb & Ha & Hfr).
+    rewrite E. eexists. split; [reflexivity|].
+    destruct (world_update w _ vv h' vv' Hw Eo Hwf Ha Hfr) as (Hw' & Habs).
+    split; [exact Hw'|]. rewrite Habs, Hb. reflexivity.
+  - destruct (vv_capLength_spec (wheap w) vv n (W1 _ _ Eo)) as (h' & vv' & E & Hwf & Hb & Ha & Hfr).
+    rewrite E. eexists. split; [reflexivity|].
+    destruct (world_update w _ vv h' vv' Hw Eo Hwf Ha Hfr) as (Hw' & Habs).
+    split; [exact Hw'|]. rewrite Habs, Hb. reflexivity.
+  - destruct (vv_removeFirst_wf (wheap w) vv (W1 _ _ Eo)) as (Hwf & _ & Hb & Ha).
+    eexists. split; [reflexivity|].
+    destruct (world_update w _ vv (wheap w) _ Hw Eo Hwf Ha (frame_refl _ _)) as (Hw' & Habs).
+    split; [exact Hw'|]. rewrite Habs, Hb. reflexivity.
+  - (* Clone into a buffer the caller has just made *)
+    unfold halloc.
+    set (cells := repeat nilView (Z.to_nat k)).
+    set (h1 := wheap w ++ [cells]).
+    set (buf := mkH (length (wheap w)) 0 (Z.to_nat k) (Z.to_nat k)).
+    assert (forall i x, nth_error (wobjs w) i = Some x ->
+                        vv_wf h1 x /\ hviews h1 (views x) = hviews (wheap w) (views x)) as H1.
+    { intros i x Hx. apply halloc_transfer. exact (W1 i x Hx). }
+    assert (forall i x, nth_error (wobjs w) i = Some x -> (harr (views x) < length (wheap w))%nat) as Hold.
+    { intros i x Hx. apply (W1 i x Hx). }
+    assert (hs_ok h1 buf) as Hbuf.
+    { unfold hs_ok, buf, h1. cbn [harr hoff hlen hcap]. rewrite harray_app_new, app_length.
+      unfold cells. rewrite repeat_length. cbn [length]. lia. }
+    destruct (vv_clone_spec h1 vv buf (proj1 (H1 _ _ Eo)) Hbuf) as (h2 & c & E & Hc & Hv & Hs & HL & Hwhere & Hkeep).
+    { pose proof (Hold _ _ Eo). unfold buf. cbn [harr]. lia. }
+    rewrite E. eexists. split; [reflexivity|].
+    assert (forall i x, nth_error (wobjs w) i = Some x ->
+                        vv_wf h2 x /\ hviews h2 (views x) = hviews (wheap w) (views x)) as H2.
+    { intros i x Hx. destruct (H1 i x Hx) as (Hx1 & Hv1).
+      destruct (Hkeep x) as (Hx2 & Hv2); [pose proof (Hold i x Hx); unfold buf; cbn [harr]; lia|exact Hx1|].
+      split; [exact Hx2|congruence]. }
+    assert (length h1 = S (length (wheap w))) as HL1 by (unfold h1; rewrite app_length; cbn; lia).
+    assert (length (wheap w) <= harr (views c))%nat as Hfresh.
+    { destruct Hwhere as [Hq|(Hq & _)]; rewrite Hq; [unfold buf; cbn [harr]; lia|lia]. }
+    split; [split|].
+    + intros i x. cbn [wobjs wheap]. intros Hx.
+      destruct (Nat.lt_ge_cases i (length (wobjs w))) as [Hi|Hi].
+      * rewrite nth_error_app1 in Hx by exact Hi. apply (H2 i x Hx).
+      * rewrite nth_error_app2 in Hx by exact Hi.
+        destruct (i - length (wobjs w))%nat as [|m]; cbn in Hx; [|destruct m; discriminate].
+        inversion Hx; subst. exact Hc.
+    + intros i j vi vj. cbn [wobjs]. intros Hi Hj Hij.
+      destruct (Nat.lt_ge_cases i (length (wobjs w))) as [Li|Li];
+        destruct (Nat.lt_ge_cases j (length (wobjs w))) as [Lj|Lj].
+      * rewrite nth_error_app1 in Hi, Hj by assumption. apply (W2 i j vi vj Hi Hj Hij).
+      * rewrite nth_error_app1 in Hi by assumption. rewrite nth_error_app2 in Hj by assumption.
+        destruct (j - length (wobjs w))%nat as [|m]; cbn in Hj; [|destruct m; discriminate].
+        inversion Hj; subst. pose proof (Hold i vi Hi). lia.
+      * rewrite nth_error_app1 in Hj by assumption. rewrite nth_error_app2 in Hi by assumption.
+        destruct (i - length (wobjs w))%nat as [|m]; cbn in Hi; [|destruct m; discriminate].
+        inversion Hi; subst. pose proof (Hold j vj Hj). lia.
+      * rewrite nth_error_app2 in Hi, Hj by assumption.
+        destruct (i - length (wobjs w))%nat as [|m] eqn:Ei; cbn in Hi; [|destruct m; discriminate].
+        destruct (j - length (wobjs w))%nat as [|m'] eqn:Ej; cbn in Hj; [|destruct m'; discriminate].
+        lia.
+    + unfold wabs. cbn [wobjs wheap]. rewrite map_app. cbn [map]. f_equal.
+      * apply nth_error_ext. intros i. rewrite !nth_error_map.
+        destruct (nth_error (wobjs w) i) as [x|] eqn:Ex; [|reflexivity]. cbn [option_map].
+        f_equal. unfold vv_bytes. destruct (H2 i x Ex) as (_ & Hvx). now rewrite Hvx.
+      * f_equal. unfold vv_bytes. rewrite Hv. destruct (H1 _ _ Eo) as (_ & Hv1). now rewrite Hv1.
+Qed.
+
+(* every history: the objects behave like independent byte strings *)
+Lemma world_refines : forall ops w,
+  wf_world w ->
+  exists w', fst (fold_left both_step ops (Ok w, wabs w)) = Ok w' /\ wf_world w' /\
+             wabs w' = snd (fold_left both_step ops (Ok w, wabs w)) /\
+             map vv_size (wobjs w') = map (fun b => Z.of_nat (length b)) (wabs w').
+Proof.
+  induction ops as [|op ops IH]; intros w Hw.
+  - exists w. cbn. split; [reflexivity|]. split; [exact Hw|]. split; [reflexivity|].
+    unfold wabs. rewrite map_map. apply nth_error_ext. intros i. rewrite !nth_error_map.
+    destruct (nth_error (wobjs w) i) as [x|] eqn:Ex; [|reflexivity]. cbn. f_equal.
+    apply vv_size_spec. apply (proj1 Hw i x Ex).
+  - cbn [fold_left]. unfold both_step at 2 4. cbn [fst snd].
+    destruct (wstep_refines w op Hw) as (w1 & E & Hw1 & Habs).
+    rewrite E, <- Habs. apply IH. exact Hw1.
+Qed.
+
+Lemma both_step_fst : forall ops r bs,
+  fst (fold_left both_step ops (r, bs)) = fold_left wstep_res ops r.
+Proof.
+  induction ops as [|op ops IH]; intros r bs; [reflexivity|].
+  cbn [fold_left]. unfold both_step at 2. cbn [fst snd].
+  destruct r as [w|]; cbn [wstep_res]; apply IH.
+Qed.
+
+Lemma bstep_untouched bs w op i :
+  wop_writes op <> Some i -> (i < length bs)%nat ->
+  nth_error (bstep bs (bop_of w op)) i = nth_error bs i /\ (i < length (bstep bs (bop_of w op)))%nat.
+Proof.
+  intros Hne Hi.
+  destruct op as [o n|o n|o|o k]; cbn [bop_of bstep wop_writes] in *;
+    destruct (nth_error bs (Z.to_nat o)) eqn:E; try (split; [reflexivity|exact Hi]);
+    try (rewrite nth_error_upd, upd_length;
+         destruct (Nat.eqb (Z.to_nat o) i) eqn:E2; [apply Nat.eqb_eq in E2; congruence|split; [reflexivity|exact Hi]]).
+  rewrite nth_error_app1, app_length by exact Hi. split; [reflexivity|lia].
+Qed.
+
+(* an object is unaffected by any history of operations on OTHER objects (trims, caps,
+   removals, further clones): in particular a clone by operations on the original and the
+   original by operations on its clones *)
+Lemma world_untouched : forall ops w i,
+  wf_world w -> (i < length (wobjs w))%nat ->
+  (forall op, In op ops -> wop_writes op <> Some i) ->
+  exists w', wrun w ops = Ok w' /\ wf_world w' /\ nth_error (wabs w') i = nth_error (wabs w) i.
+Proof.
+  induction ops as [|op ops IH]; intros w i Hw Hi Hops.
+  - exists w. split; [reflexivity|]. split; [exact Hw|reflexivity].
+  - destruct (wstep_refines w op Hw) as (w1 & E & Hw1 & Habs).
+    assert (i < length (wabs w))%nat as Hi' by (unfold wabs; rewrite map_length; exact Hi).
+    destruct (bstep_untouched (wabs w) w op i (Hops op (or_introl eq_refl)) Hi') as (Hsame & Hlen).
+    rewrite <- Habs in Hsame, Hlen.
+    destruct (IH w1 i Hw1) as (w' & E' & Hw' & Hn).
+    { unfold wabs in Hlen. rewrite map_length in Hlen. exact Hlen. }
+    { intros op' Hin. apply Hops. right. exact Hin. }
+    exists w'. unfold wrun in *. cbn [fold_left wstep_res]. rewrite E.
+    split; [exact E'|]. split; [exact Hw'|congruence].
+Qed.
+
+(* Clone with a buffer that does not alias the original's header array: original and clone
+   form a well-formed two-object world, both standing for the original's bytes *)
+Lemma clone_independent h vv buf h' c :
+  vv_wf h vv -> hs_ok h buf -> harr buf <> harr (views vv) -> vv_clone h vv buf = (h', c) ->
+  wf_world (mkW h' [vv; c]) /\ wabs (mkW h' [vv; c]) = [vv_bytes h vv; vv_bytes h vv] /\
+  vv_size c = vv_size vv.
+Proof.
+  intros Hwf Hbuf Hne E.
+  destruct (vv_clone_spec h vv buf Hwf Hbuf Hne) as (h2 & c2 & E2 & Hc & Hv & Hs & HL & Hwhere & Hkeep).
+  rewrite E in E2. inversion E2; subst h2 c2.
+  destruct (Hkeep vv ltac:(congruence) Hwf) as (Hwf' & Hv').
+  assert (harr (views vv) <> harr (views c)) as Hd.
+  { destruct Hwhere as [Hq|(Hq & _)]; rewrite Hq; [congruence|]. destruct Hwf as ((Hlt & _) & _). lia. }
+  split; [split|split].
+  - intros i x Hx. destruct i as [|[|i]]; cbn in Hx; inversion Hx; subst; try assumption.
+    destruct i; discriminate.
+  - intros i j vi vj Hi Hj Hij.
+    destruct i as [|[|i]]; cbn in Hi; try (destruct i; discriminate);
+      destruct j as [|[|j]]; cbn in Hj; try (destruct j; discriminate);
+      inversion Hi; inversion Hj; subst; congruence.
+  - unfold wabs, vv_bytes. cbn [map wobjs wheap]. rewrite Hv, Hv'. reflexivity.
+  - exact Hs.
+Qed.
+
+Example world_nonvacuous :
+  exists w ops w', wf_world w /\ wrun w ops = Ok w' /\
+    wabs w = [[1; 2; 3; 4; 5]] /\ wabs w' = [[2; 3]; [1; 2; 3; 4]; [3; 4]].
+Proof.
+  set (arr := [0; 1; 2; 3; 4; 5; 6]).
+  exists (mkW [[viewOf arr 1 2; viewOf arr 3 0; viewOf arr 3 3]] [mkVV (mkH 0 0 3 3) 5]),
+         [WClone 0 (-1); WCap 1 4; WTrim 0 1; WClone 0 5; WRemoveFirst 2; WRemoveFirst 2; WCap 0 2; WCap 2 2].
+  eexists. split; [|split; [vm_compute; reflexivity|split; vm_compute; reflexivity]].
+  split.
+  - intros i x Hx. destruct i as [|i]; [|destruct i; discriminate]. inversion Hx; subst.
+    unfold vv_wf, hs_ok. cbn. split; [lia|]. split; [|reflexivity].
+    repeat constructor; unfold wf_view; cbn; lia.
+  - intros i j vi vj Hi Hj Hij. destruct i as [|i]; [|destruct i; discriminate].
+    destruct j as [|j]; [lia|destruct j; discriminate].
+Qed.
+
+(* ================================================================ Prependable *)
+
+Lemma skipn_overwrite {A} a (d l : list A) :
+  (a + length d <= length l)%nat -> skipn a (overwrite a d l) = d ++ skipn (a + length d) l.
+Proof.
+  intros H. unfold overwrite. rewrite skipn_app, firstn_length, Nat.min_l by lia.
+  rewrite Nat.sub_diag. cbn [skipn].
+  rewrite (skipn_all2 (firstn a l)) by (rewrite firstn_length; lia). reflexivity.
+Qed.
+
+Lemma seg_overwrite {A} a k m (d l : list A) :
+  0 <= a -> 0 <= m -> Z.of_nat (length d) = k -> a + k <= Z.of_nat (length l) ->
+  seg a (k + m) (overwrite (Z.to_nat a) d l) = d ++ seg (a + k) m l.
+Proof.
+  intros Ha Hm Hk Hl. unfold seg. rewrite skipn_overwrite by lia.
+  rewrite firstn_app. replace (Z.to_nat (k + m) - length d)%nat with (Z.to_nat m) by lia.
+  rewrite firstn_all2 by lia. f_equal. f_equal. f_equal. lia.
+Qed.
+
+Lemma p_view_ok p :
+  wf_p p ->
+  exists v, p_view p = Ok v /\ wf_view v /\
+            vbytes v = seg (voff (pbuf p) + usedIdx p) (vlen (pbuf p) - usedIdx p) (varr (pbuf p)) /\
+            Z.of_nat (length (vbytes v)) = p_usedLength p.
+Proof.
+  intros (Hw & Hu). pose proof Hw as Hw'. unfold wf_view in Hw'.
+  unfold p_view, slice2. rewrite slice3_ok by lia. eexists. split; [reflexivity|].
+  split; [unfold wf_view; cbn; lia|]. split; [reflexivity|].
+  unfold vbytes, p_usedLength. cbn [varr voff vlen]. apply seg_length; lia.
+Qed.
+
+(* Prepend(k) for every k in Z: refused (nil, state untouched) exactly when k exceeds the free
+   space; otherwise, for k >= 0, the index moves down by k and the region handed out has
+   len = cap = k and sits right in front of the used part; a negative k panics AFTER the
+   index has been moved (the object is corrupted: out of contract) *)
+Lemma p_prepend_spec p k :
+  wf_p p ->
+  (usedIdx p < k -> p_prepend p k = (p, PNil)) /\
+  (0 <= k <= usedIdx p ->
+     exists r, p_prepend p k = (mkP (pbuf p) (usedIdx p - k), PRegion r) /\
+               wf_view r /\ vlen r = k /\ vcap r = k /\ varr r = varr (pbuf p) /\
+               voff r = voff (pbuf p) + (usedIdx p - k)) /\
+  (k < 0 -> snd (p_prepend p k) = PPanic /\ usedIdx (fst (p_prepend p k)) = usedIdx p - k).
+Proof.
+  intros (Hw & Hu). pose proof Hw as Hw'. unfold wf_view in Hw'.
+  unfold p_prepend. split; [|split].
+  - intros H. replace (usedIdx p <? k) with true by lia. reflexivity.
+  - intros H. replace (usedIdx p <? k) with false by lia.
+    unfold p_view, slice2. cbn [pbuf usedIdx]. rewrite slice3_ok by lia.
+    rewrite slice3_ok by (cbn; lia). eexists. split; [reflexivity|].
+    unfold wf_view. cbn. repeat split; lia.
+  - intros H. replace (usedIdx p <? k) with false by lia.
+    destruct (p_view _) as [v|]; [|split; reflexivity].
+    replace (slice3 v 0 k k) with (@Panic View); [split; reflexivity|].
+    symmetry. apply slice3_panic_iff. lia.
+Qed.
+
+Lemma p_step_refused p k d : wf_p p -> usedIdx p < k -> p_step p (k, d) = p.
+Proof.
+  intros Hw H. unfold p_step. destruct (p_prepend_spec p k Hw) as (H1 & _). now rewrite (H1 H).
+Qed.
+
+Lemma p_step_served p k d v :
+  wf_p p -> p_view p = Ok v -> Z.of_nat (length d) = k -> k <= usedIdx p ->
+  wf_p (p_step p (k, d)) /\ usedIdx (p_step p (k, d)) = usedIdx p - k /\
+  exists v', p_view (p_step p (k, d)) = Ok v' /\ vbytes v' = d ++ vbytes v.
+Proof.
+  intros Hwp Hv Hd Hk. pose proof Hwp as (Hw & Hu). pose proof Hw as Hw'. unfold wf_view in Hw'.
+  destruct (p_prepend_spec p k Hwp) as (_ & H2 & _).
+  destruct (H2 ltac:(lia)) as (r & E & Hr & Hl & Hc & Harr & Hoff).
+  unfold p_step. rewrite E. unfold p_fill. cbn [pbuf usedIdx].
+  rewrite Hl, firstn_all2 by lia.
+  set (arr' := overwrite (Z.to_nat (voff r)) d (varr (pbuf p))).
+  assert (length arr' = length (varr (pbuf p))) as HL by (apply overwrite_length; lia).
+  assert (wf_p (mkP (mkView arr' (voff (pbuf p)) (vlen (pbuf p)) (vcap (pbuf p))) (usedIdx p - k))) as Hwp'.
+  { unfold wf_p, wf_view. cbn. rewrite HL. lia. }
+  split; [exact Hwp'|]. split; [reflexivity|].
+  destruct (p_view_ok _ Hwp') as (v' & Ev' & _ & Hb' & _).
+  destruct (p_view_ok _ Hwp) as (v0 & Ev0 & _ & Hb0 & _).
+  rewrite Hv in Ev0. inversion Ev0; subst v0.
+  exists v'. split; [exact Ev'|]. rewrite Hb', Hb0. cbn [pbuf usedIdx varr voff vlen].
+  unfold arr'. rewrite Hoff.
+  replace (vlen (pbuf p) - (usedIdx p - k)) with (k + (vlen (pbuf p) - usedIdx p)) by lia.
+  rewrite seg_overwrite by lia. f_equal. f_equal. lia.
+Qed.
+
+(* every history of Prepend + fill: the free space and the content follow the byte-string
+   history; View() = the reserved regions in reverse order (then whatever was used initially) *)
+Lemma prep_fold : forall ops p avail regs base,
+  wf_p p -> usedIdx p = avail ->
+  (exists v, p_view p = Ok v /\ vbytes v = concat (rev regs) ++ base) ->
+  Forall (fun op => Z.of_nat (length (snd op)) = fst op) ops ->
+  let p' := fold_left p_step ops p in
+  let st := fold_left pspec_step ops (avail, regs) in
+  wf_p p' /\ usedIdx p' = fst st /\
+  exists v, p_view p' = Ok v /\ vbytes v = concat (rev (snd st)) ++ base.
+Proof.
+  induction ops as [|[k d] ops IH]; intros p avail regs base Hwp Hu Hv Hops.
+  - cbn. auto.
+  - inversion Hops as [|? ? Hd Hrest]; subst. cbn [fst snd] in Hd.
+    cbn [fold_left].
+    change (pspec_step (usedIdx p, regs) (k, d))
+      with (if usedIdx p <? k then (usedIdx p, regs) else (usedIdx p - k, regs ++ [d])).
+    destruct (usedIdx p <? k) eqn:E.
+    + rewrite p_step_refused by (assumption || lia). apply IH; auto.
+    + destruct Hv as (v & Ev & Hb).
+      destruct (p_step_served p k d v Hwp Ev Hd ltac:(lia)) as (Hwp' & Hu' & v' & Ev' & Hb').
+      apply IH; try assumption.
+      exists v'. split; [exact Ev'|]. rewrite Hb', Hb, rev_app_distr. cbn [rev app concat].
+      rewrite app_assoc. reflexivity.
+Qed.
+
+Lemma prependable_refines ops p v0 :
+  wf_p p -> p_view p = Ok v0 ->
+  Forall (fun op => Z.of_nat (length (snd op)) = fst op) ops ->
+  let p' := fold_left p_step ops p in
+  let st := fold_left pspec_step ops (usedIdx p, []) in
+  wf_p p' /\ usedIdx p' = fst st /\
+  exists v, p_view p' = Ok v /\ vbytes v = concat (rev (snd st)) ++ vbytes v0 /\
+            p_usedLength p' = Z.of_nat (length (concat (rev (snd st)))) + p_usedLength p.
+Proof.
+  intros Hwp Ev Hops. cbv zeta.
+  destruct (prep_fold ops p (usedIdx p) [] (vbytes v0) Hwp eq_refl) as (Hwp' & Hu & v & Ev' & Hb); [|exact Hops|].
+  { exists v0. split; [exact Ev|reflexivity]. }
+  split; [exact Hwp'|]. split; [exact Hu|]. exists v. split; [exact Ev'|]. split; [exact Hb|].
+  destruct (p_view_ok _ Hwp') as (v1 & E1 & _ & _ & HL1). rewrite Ev' in E1. inversion E1; subst v1.
+  destruct (p_view_ok _ Hwp) as (v2 & E2 & _ & _ & HL2). rewrite Ev in E2. inversion E2; subst v2.
+  rewrite <- HL1, <- HL2, Hb, app_length. lia.
+Qed.
+
+Lemma newPrependable_spec size :
+  0 <= size ->
+  exists p v, newPrependable size = Ok p /\ wf_p p /\ usedIdx p = size /\
+              p_view p = Ok v /\ vbytes v = [] /\ p_usedLength p = 0.
+Proof.
+  intros H. unfold newPrependable, newView. replace (size <? 0) with false by lia.
+  set (p := mkP (mkView (repeat 0 (Z.to_nat size)) 0 size size) size).
+  assert (wf_p p) as Hwp.
+  { unfold wf_p, wf_view, p. cbn. rewrite repeat_length. lia. }
+  destruct (p_view_ok p Hwp) as (v & Ev & _ & Hb & HL).
+  exists p, v. split; [reflexivity|]. split; [exact Hwp|]. split; [reflexivity|]. split; [exact Ev|].
+  assert (p_usedLength p = 0) as H0 by (unfold p_usedLength, p; cbn; lia).
+  split; [|exact H0]. rewrite H0 in HL. destruct (vbytes v); [reflexivity|cbn in HL; lia].
+Qed.
+
+Lemma newPrependableFromView_spec v :
+  wf_view v ->
+  let p := newPrependableFromView v in
+  wf_p p /\ usedIdx p = 0 /\ exists v', p_view p = Ok v' /\ vbytes v' = vbytes v.
+Proof.
+  intros Hw. cbv zeta. pose proof Hw as Hw'. unfold wf_view in Hw'.
+  assert (wf_p (newPrependableFromView v)) as Hwp by (unfold wf_p, newPrependableFromView; cbn; split; [exact Hw|lia]).
+  split; [exact Hwp|]. split; [reflexivity|].
+  destruct (p_view_ok _ Hwp) as (v' & Ev & _ & Hb & _). exists v'. split; [exact Ev|].
+  rewrite Hb. unfold newPrependableFromView, vbytes. cbn. f_equal; lia.
+Qed.
+
+Example prependable_nonvacuous :
+  exists p ops v, newPrependable 6 = Ok p /\
+    fold_left pspec_step ops (6, []) = (1, [[7; 8]; [5; 6; 9]]) /\
+    p_view (fold_left p_step ops p) = Ok v /\ vbytes v = [5; 6; 9; 7; 8] /\
+    p_usedLength (fold_left p_step ops p) = 5.
+Proof.
+  eexists _, [(2, [7; 8]); (5, [1; 1; 1; 1; 1]); (3, [5; 6; 9]); (2, [4; 4])], _.
+  split; [reflexivity|]. split; [reflexivity|]. split; [vm_compute; reflexivity|].
+  split; reflexivity.
+Qed.
+
+(* ---------------------------------------------------------------- packaged View statements *)
+Lemma view_trimFront_spec v n :
+  wf_view v ->
+  (0 <= n <= vlen v ->
+     exists v', view_trimFront v n = Ok v' /\ wf_view v' /\
+                vbytes v' = skipn (Z.to_nat n) (vbytes v) /\
+                vlen v' = vlen v - n /\ vcap v' = vcap v - n /\
+                vfull v' = skipn (Z.to_nat n) (vfull v)) /\
+  (view_trimFront v n = Panic <-> n < 0 \/ vlen v < n).
+Proof. intros H. split; [apply view_trimFront_ok; exact H|apply view_trimFront_panic_iff; exact H]. Qed.
+
+Lemma view_nextBytes_spec v n :
+  wf_view v ->
+  (0 <= n <= vlen v ->
+     exists r v', view_nextBytes v n = Ok (r, v') /\ wf_view v' /\
+                  vbytes r = firstn (Z.to_nat n) (vbytes v) /\
+                  vbytes v' = skipn (Z.to_nat n) (vbytes v)) /\
+  (view_nextBytes v n = Panic <-> n < 0 \/ vlen v < n).
+Proof. intros H. split; [apply view_nextBytes_ok; exact H|apply view_nextBytes_panic_iff; exact H]. Qed.
